@@ -26,7 +26,7 @@ CFG = dict(
                  "the theorems are about the whole-file reader function; its agreement with the call-by-call model on every read-size history is "
                  "checked by the correspondence run (cross-check in the driver), not proved",
                  "perfect in-memory source and sink (I/O faults are C05's business)",
-                 "/repo carries the fix patches repo-patches/41..49 (F4, F5, F20, F11, F13, F16, F16b, F8, F6); on the historical code C02 is false "
+                 "/repo carries the fix patches /repo 90fabde..49 (F4, F5, F20, F11, F13, F16, F16b, F8, F6); on the historical code C02 is false "
                  "(C02_xz_empty_input_refuted; lzip_dict_old_refuted)",
                  "C02_lzip: the data are bytes and fewer than 2^64 bytes per member (u64 trailer counters)"],
 )
